@@ -242,7 +242,7 @@ def run_property(prop, tier, seed):
     for key, what in known_hits:
         print('KNOWN-FINDING: property=%s %s %s' % (prop, key, what))
     if downgraded:
-        print('%s downgraded to bounded (undecided by the solvers, bounded tier passed): %s' % (prop, downgraded))
+        print('%s downgraded to bounded (undecided by the solvers; the verdict for these comes from the bounded tier): %s' % (prop, downgraded))
     if crashed or bounded_err:
         for c in crashed:
             print('CHECKER-ERROR %s: %s' % (c['contract'], c['error']), file=sys.stderr)
